@@ -9,12 +9,17 @@ LAYOUTS = [('a', 'b', 'c'), ('d1/a', 'd1/b', 'd1/c'), ('d1/a', 'd2/b', 'c'), ('d
            ('d1/m', 'd2/m', 'd3/m')]
 
 
+def _refs(o):
+    # eAllReferences() walks a *set* of supertypes: its order differs from run to run
+    return sorted(o.eClass.eAllReferences(), key=lambda f: f.name)
+
+
 def preorder(roots):
     out = []
 
     def walk(o):
         out.append(o)
-        for f in sorted((f for f in o.eClass.eAllReferences() if f.containment), key=lambda f: f.name):
+        for f in sorted((f for f in _refs(o) if f.containment), key=lambda f: f.name):
             v = o.eGet(f)
             for c in (v if f.many else ([v] if v is not None else [])):
                 walk(c)
@@ -71,7 +76,7 @@ def expected_links(ms):
     exp = {}
     for k, m in enumerate(ms):
         for i, o in enumerate(preorder(m.roots)):
-            for f in o.eClass.eAllReferences():
+            for f in _refs(o):
                 if f.containment:
                     continue
                 v = o.eGet(f)
@@ -112,7 +117,7 @@ def run_case(ctx, h, tmp):
         # follow every reference of the first resource (this loads the others on demand) ...
         followed = {}
         for i, o in enumerate(objs_first):
-            for f in o.eClass.eAllReferences():
+            for f in _refs(o):
                 if f.containment:
                     continue
                 v = o.eGet(f)
@@ -186,7 +191,7 @@ def run_case(ctx, h, tmp):
                     for o in everything:
                         if o is d:
                             continue
-                        for g in o.eClass.eAllReferences():
+                        for g in _refs(o):
                             v = o.eGet(g)
                             vs = list(v) if g.many else ([v] if v is not None else [])
                             for x in vs:
@@ -208,7 +213,7 @@ def run_case(ctx, h, tmp):
                     for o in everything:
                         if id(o) in gone:
                             continue
-                        for g in o.eClass.eAllReferences():
+                        for g in _refs(o):
                             v = o.eGet(g)
                             vs = list(v) if g.many else ([v] if v is not None else [])
                             snap[(id(o), g.name)] = [('proxy', x._proxy_path, id(x._wrapped) if x.resolved else None)
